@@ -29,6 +29,7 @@ EXPLANATION = ("a: IncrementalEngine::{insert,insert_explicit,insert_logical,...
                "`!has_valid_justification(dep)` and `!retracted_facts.contains(dep)`, and returns every cascaded handle; "
                "has_valid_justification is an `any` over the fact's justifications and Justification::is_valid is `explicit || "
                "no premise retracted`.")
+EXPLANATION += " e (added): no function removes a whole entry of fact_dependents (premise -> justification ids) except clear and the retraction of that very fact: dropping a premise's entry forgets the sibling justifications still resting on it."
 FLOORS = {"insert_methods": 3}
 
 IE = "rete::propagation::IncrementalEngine"
